@@ -57,6 +57,12 @@ class _Base:
         sim.settle()
         N[self.sid["clk"]] = 0
         sim.settle()
+        # the environment returns its requests to the idle value after the edge (they are only sampled by the clocked
+        # processes; everything compared below is registered or a function of the stored state), so that product
+        # states do not differ merely by the last input valuation
+        for n, _ in kv:
+            N[self.sid[n]] = 0 if self.ty[n][0] == "sl" else (0, 0)
+        sim.settle()
         if sim.A:
             a = sim.A[0]
             del sim.A[:]
